@@ -641,7 +641,7 @@ class Z3Dom:
         return Arr2(r, c, fn=fn, dtype=dtype)
 
     # ---- functionals of sequences (Sum, DTFT): uninterpreted, congruence at proof time
-    def seq_functional(self, kind, seq_fn, args=()):
+    def seq_functional(self, kind, seq_fn, args=(), meta=None):
         """z3 terms standing for a functional of the whole (zero-extended) sequence
         ``seq_fn`` (index term -> scalar), e.g. its total or its DTFT at frequency
         ``args[0]``.  The solver sees an uninterpreted symbol; the *definition* (the
@@ -670,7 +670,7 @@ class Z3Dom:
         nres = 2 if iscx else 1
         decls = [z3.Function("%s#%d" % (ident, r), *(sorts + [z3.RealSort()])) for r in range(nres)]
         self.defs[ident] = {"kind": kind, "j": j, "params": params, "re": pre, "im": pim,
-                            "nargs": len(argse), "decls": decls, "complex": iscx}
+                            "nargs": len(argse), "decls": decls, "complex": iscx, "meta": meta}
         for r, dcl in enumerate(decls):
             self.decl_index[dcl.name()] = (ident, r)
         apps = [R(dcl(*(argse + params))) if (argse or params) else R(dcl()) for dcl in decls]
@@ -689,7 +689,7 @@ class Z3Dom:
             v = body(j)
             zero = Cx(Fraction(0), Fraction(0)) if isinstance(v, Cx) else Fraction(0)
             return V.s_ite(V.b_and(V.s_cmp(">=", j, lo), V.s_cmp("<", j, hi)), v, zero)
-        return self.seq_functional("total", masked)
+        return self.seq_functional("total", masked, meta={"lo": zconst(lo), "hi": zconst(hi)})
 
     def dtft(self, seq_fn, length, num, den):
         """DTFT(s, f) = sum_j s[j] exp(-2 pi i f j) of the zero-extended sequence at f = num/den
